@@ -12,6 +12,8 @@
 mod cancel;
 mod sasl;
 mod txn;
+mod typed;
+mod gen_typed;
 mod specenc;
 mod delivery;
 mod codec;
@@ -100,6 +102,8 @@ fn main() {
         "settle" => settle::main(&opts),
         "sessionwire" => sessionwire::main(&opts),
         "life" => life::main(&opts),
+        "typed" => typed::main(&opts),
+        "probe-to-value" => typed::probe_to_value(&opts),
         other => {
             eprintln!("unknown module {}", other);
             std::process::exit(64);
